@@ -244,6 +244,159 @@ theorem lookup_imulMerge (f : α → β → α) (a : Fib κ α) (b : Fib κ β)
 
 end
 
+/-! ### scalar forms: ranges and upserts -/
+
+section
+variable {κ : Type} [LT κ] [DecidableRel (α := κ) (· < ·)] [DecidableEq κ] [StrictTotal κ]
+variable {α ν : Type}
+
+theorem lookup_append (l₁ l₂ : Fib κ α) (c : κ) :
+    lookup (l₁ ++ l₂) c = (lookup l₁ c).or (lookup l₂ c) := by
+  unfold lookup
+  rw [List.find?_append]
+  cases List.find? (fun e => decide (e.1 = c)) l₁ <;> rfl
+
+theorem lookup_upsert [DecidableEq ν] (dflt : ν) (g : ν → ν) (f : Fib κ ν) (hs : Sorted f) (c c' : κ) :
+    lookup (upsert dflt g f c) c' =
+      if c = c' then some (g ((lookup f c).getD dflt)) else lookup f c' := by
+  induction f with
+  | nil =>
+    simp only [upsert, lookup_cons, lookup_nil]
+    by_cases h : c = c' <;> simp [h]
+  | cons e r ih =>
+    obtain ⟨ca, va⟩ := e
+    simp only [upsert]
+    by_cases h1 : ca = c
+    · subst h1
+      simp only [if_true, lookup_cons]
+      by_cases h : ca = c' <;> simp [h]
+    · rw [if_neg h1]
+      by_cases h2 : c < ca
+      · rw [if_pos h2]
+        have hnone : lookup r c = none :=
+          lookup_eq_none_of_lt (fun x hx => trans h2 (hs.head_lt x hx))
+        simp only [lookup_cons, hnone]
+        by_cases h : c = c'
+        · have hca : ca ≠ c' := fun hh => h1 (hh.trans h.symm)
+          simp [h, hca]
+        · simp [h, h1]
+      · rw [if_neg h2]
+        simp only [lookup_cons]
+        rw [ih hs.tail]
+        by_cases h : ca = c'
+        · have : c ≠ c' := fun hc => h1 (h.trans hc.symm)
+          simp [h, this, h1]
+        · simp [h, h1]
+
+theorem upsert_keys [DecidableEq ν] (dflt : ν) (g : ν → ν) (f : Fib κ ν) (c : κ) (x : κ × ν)
+    (hx : x ∈ upsert dflt g f c) : x.1 = c ∨ ∃ y ∈ f, y.1 = x.1 := by
+  induction f with
+  | nil => simp [upsert] at hx; left; rw [hx]
+  | cons e r ih =>
+    obtain ⟨ca, va⟩ := e
+    simp only [upsert] at hx
+    by_cases h1 : ca = c
+    · rw [if_pos h1] at hx
+      rcases List.mem_cons.1 hx with rfl | hx
+      · left; exact h1
+      · right; exact ⟨x, List.mem_cons_of_mem _ hx, rfl⟩
+    · rw [if_neg h1] at hx
+      by_cases h2 : c < ca
+      · rw [if_pos h2] at hx
+        rcases List.mem_cons.1 hx with rfl | hx
+        · left; rfl
+        · right; exact ⟨x, hx, rfl⟩
+      · rw [if_neg h2] at hx
+        rcases List.mem_cons.1 hx with rfl | hx
+        · right; exact ⟨_, List.mem_cons_self .., rfl⟩
+        · rcases ih hx with h | ⟨y, hy, hyx⟩
+          · left; exact h
+          · right; exact ⟨y, List.mem_cons_of_mem _ hy, hyx⟩
+
+theorem upsert_sorted [DecidableEq ν] (dflt : ν) (g : ν → ν) (f : Fib κ ν) (hs : Sorted f) (c : κ) :
+    Sorted (upsert dflt g f c) := by
+  induction f with
+  | nil => simp [upsert, Sorted]
+  | cons e r ih =>
+    obtain ⟨ca, va⟩ := e
+    simp only [upsert]
+    by_cases h1 : ca = c
+    · rw [if_pos h1]
+      exact sorted_cons.2 ⟨fun x hx => hs.head_lt x hx, hs.tail⟩
+    · rw [if_neg h1]
+      by_cases h2 : c < ca
+      · rw [if_pos h2]
+        refine sorted_cons.2 ⟨?_, hs⟩
+        intro x hx
+        rcases List.mem_cons.1 hx with rfl | hx
+        · exact h2
+        · exact trans h2 (hs.head_lt x hx)
+      · rw [if_neg h2]
+        have hgt : ca < c := gt_of_not_lt_ne (fun h => h1 h.symm) h2
+        refine sorted_cons.2 ⟨?_, ih hs.tail⟩
+        intro x hx
+        rcases upsert_keys dflt g r c x hx with h | ⟨y, hy, hyx⟩
+        · rw [h]; exact hgt
+        · rw [← hyx]; exact hs.head_lt y hy
+
+end
+
+section
+variable {ν : Type}
+
+theorem lookup_range_map (g : Nat → ν) (n : Nat) (c : Int) :
+    lookup ((List.range n).map (fun (i : Nat) => ((i : Int), g i))) c =
+      if 0 ≤ c ∧ c < (n : Int) then some (g c.toNat) else none := by
+  induction n with
+  | zero =>
+    have : ¬ (0 ≤ c ∧ c < ((0 : Nat) : Int)) := by omega
+    rw [if_neg this]; rfl
+  | succ n ih =>
+    rw [List.range_succ, List.map_append, lookup_append, ih]
+    simp only [List.map_cons, List.map_nil, lookup_cons, lookup_nil]
+    by_cases h1 : 0 ≤ c ∧ c < (n : Int)
+    · have h2 : 0 ≤ c ∧ c < ((n + 1 : Nat) : Int) := by omega
+      rw [if_pos h1, if_pos h2]; rfl
+    · by_cases h3 : (n : Int) = c
+      · have h2 : 0 ≤ c ∧ c < ((n + 1 : Nat) : Int) := by omega
+        rw [if_neg h1, if_pos h2, if_pos h3]
+        subst h3
+        rw [Int.toNat_natCast]; rfl
+      · have h2 : ¬ (0 ≤ c ∧ c < ((n + 1 : Nat) : Int)) := by omega
+        rw [if_neg h1, if_neg h2, if_neg h3]; rfl
+
+/-- lookup after `for c in range(n): getPayloadRef(c) += s` -/
+theorem lookup_isaddF [DecidableEq ν] [Add ν] (dflt s : ν) (n : Nat) (f : Fib Int ν) (hs : Sorted f) :
+    Sorted (isaddF dflt s n f) ∧
+    ∀ c : Int, lookup (isaddF dflt s n f) c =
+      if 0 ≤ c ∧ c < (n : Int) then some ((lookup f c).getD dflt + s) else lookup f c := by
+  induction n with
+  | zero =>
+    refine ⟨by simpa [isaddF] using hs, ?_⟩
+    intro c
+    have : ¬ (0 ≤ c ∧ c < ((0 : Nat) : Int)) := by omega
+    rw [if_neg this]; rfl
+  | succ n ih =>
+    have hstep : isaddF dflt s (n + 1) f = upsert dflt (fun v => v + s) (isaddF dflt s n f) (n : Int) := by
+      simp [isaddF, List.range_succ, List.foldl_append]
+    obtain ⟨ihs, ihl⟩ := ih
+    refine ⟨by rw [hstep]; exact upsert_sorted _ _ _ ihs _, ?_⟩
+    intro c
+    rw [hstep, lookup_upsert dflt _ _ ihs]
+    by_cases h3 : (n : Int) = c
+    · have h2 : 0 ≤ c ∧ c < ((n + 1 : Nat) : Int) := by omega
+      have h1 : ¬ (0 ≤ (n : Int) ∧ (n : Int) < (n : Int)) := by omega
+      subst h3
+      rw [if_pos rfl, if_pos h2, ihl, if_neg h1]
+    · rw [if_neg h3, ihl]
+      by_cases h1 : 0 ≤ c ∧ c < (n : Int)
+      · have h2 : 0 ≤ c ∧ c < ((n + 1 : Nat) : Int) := by omega
+        rw [if_pos h1, if_pos h2]
+      · have h2 : ¬ (0 ≤ c ∧ c < ((n + 1 : Nat) : Int)) := by omega
+        rw [if_neg h1, if_neg h2]
+
+end
+
 /-! ### the dense view -/
 
 section
